@@ -198,3 +198,63 @@ package middleware
 //@     && ss.sessionValidator == opts.ValidateSession && ss.refreshPeriod == opts.RefreshPeriod
 //@ prop C19
 //@ scan[nonnil:stored-loader-allocated-by-its-constructor] alloc-of pkg/middleware.storedSessionLoader pkg/middleware.NewStoredSessionLoader
+
+//@ nonnil jwtSessionLoader.jwtRegex
+//@ func NewJwtSessionLoader
+//@ safety
+//@ prop C19 C04 C01
+//@ ensures[nonnil:jwt-loader-fields] js.jwtRegex != nil && js.jwtRegex == reCompile(jwtRegexFormat) && js.sessionLoaders == sessionLoaders
+//@ prop C19
+//@ scan[nonnil:jwt-loader-allocated-by-its-constructor] alloc-of pkg/middleware.jwtSessionLoader pkg/middleware.NewJwtSessionLoader
+
+// ------------------------------------------------------------------ C04 / C01 / C19: what is read out of an Authorization header
+// "<type> <value>": exactly two space-separated fields, otherwise an error and nothing else
+//@ func splitAuthHeader
+//@ safety
+//@ nomod
+//@ prop C04 C01 C19
+//@ ensures[two-fields-or-an-error] ret2 == nil ==> len(strings.Split(header, " ")) == 2 && ret0 == strings.Split(header, " ")[0]
+//@     && ret1 == strings.Split(header, " ")[1]
+//@ ensures[an-error-carries-nothing] ret2 != nil ==> ret0 == "" && ret1 == "" && len(strings.Split(header, " ")) != 2
+
+// base64(user ":" password), split at the first colon
+//@ func getBasicAuthCredentials
+//@ safety
+//@ nomod
+//@ prop C04 C01 C19
+//@ ensures[user-colon-password] ret2 == nil ==> b64decErr(base64.StdEncoding, token) == nil && Contains(b64dec(base64.StdEncoding, token), ":")
+//@     && ret0 == b64dec(base64.StdEncoding, token)[:Index(b64dec(base64.StdEncoding, token), ":")]
+//@     && ret1 == b64dec(base64.StdEncoding, token)[Index(b64dec(base64.StdEncoding, token), ":") + 1:]
+//@ ensures[undecodable-or-colonless-is-an-error] b64decErr(base64.StdEncoding, token) != nil || !Contains(b64dec(base64.StdEncoding, token), ":")
+//@     ==> ret2 != nil && ret0 == "" && ret1 == ""
+
+//@ func findBasicCredentialsFromHeader
+//@ safety
+//@ nomod
+//@ prop C01 C19
+//@ ensures[credentials-only-from-a-basic-header] ret2 == nil ==> ret2(splitAuthHeader) == nil && ret0(splitAuthHeader) == "Basic"
+//@     && arg(splitAuthHeader, 0) == header && ret2(getBasicAuthCredentials) == nil && arg(getBasicAuthCredentials, 0) == ret1(splitAuthHeader)
+//@     && ret0 == ret0(getBasicAuthCredentials) && ret1 == ret1(getBasicAuthCredentials)
+//@ ensures[an-error-carries-nothing] ret2 != nil ==> ret0 == "" && ret1 == ""
+
+// the bearer token handed to the verifiers is the header's value when it has the shape of a JWT, or the JWT-shaped user or
+// password of a basic value (user with an empty or "x-oauth-basic" password; otherwise a JWT-shaped password); nothing else
+//@ func (*jwtSessionLoader).findTokenFromHeader
+//@ safety
+//@ nomod
+//@ prop C04 C01 C19
+//@ ensures[only-a-jwt-shaped-bearer-or-basic-value] ret1 == nil ==> ret2(splitAuthHeader) == nil && arg(splitAuthHeader, 0) == header
+//@     && ((ret0(splitAuthHeader) == "Bearer" && ret0 == ret1(splitAuthHeader) && reMatch(j.jwtRegex, ret0))
+//@         || (ret0(splitAuthHeader) == "Basic" && called(getBasicToken) && ret1(getBasicToken) == nil && ret0 == ret0(getBasicToken)
+//@             && arg(getBasicToken, 1) == ret1(splitAuthHeader)))
+//@ ensures[an-error-carries-nothing] ret1 != nil ==> ret0 == ""
+
+//@ func (*jwtSessionLoader).getBasicToken
+//@ safety
+//@ nomod
+//@ prop C04 C01 C19
+//@ ensures[jwt-shaped-user-or-password] ret1 == nil ==> ret2(getBasicAuthCredentials) == nil && arg(getBasicAuthCredentials, 0) == token
+//@     && reMatch(j.jwtRegex, ret0)
+//@     && ((ret0 == ret0(getBasicAuthCredentials) && (ret1(getBasicAuthCredentials) == "x-oauth-basic" || ret1(getBasicAuthCredentials) == ""))
+//@         || (ret0 == ret1(getBasicAuthCredentials) && !reMatch(j.jwtRegex, ret0(getBasicAuthCredentials))))
+//@ ensures[an-error-carries-nothing] ret1 != nil ==> ret0 == ""
